@@ -270,7 +270,8 @@ def c04(ck):
         return
     svc = DEFAULT_SVC
     quick = ck.quick
-    ow_flags = {"oneway": ALL_FLAGS["oneway"], "more+oneway": ALL_FLAGS["more+oneway"], "oneway+upgflag": ALL_FLAGS["oneway+upgflag"]}
+    ow_flags = {"oneway": ALL_FLAGS["oneway"], "more+oneway": ALL_FLAGS["more+oneway"], "oneway+upgflag": ALL_FLAGS["oneway+upgflag"],
+                "oneway+falses": ALL_FLAGS["oneway+falses"]}
     lines, meta = [], {}
     # every kind alone with oneway
     for k in kinds():
@@ -718,6 +719,9 @@ def c02_reference_caller(ck, quick, rng):
             s.settimeout(0.3)
             got = b""
             for piece, wait_for in steps:
+                if not piece:
+                    time.sleep(0.3)
+                    continue
                 s.sendall(piece)
                 t1 = time.time()
                 while len(got) < wait_for and time.time() - t1 < 3:
@@ -737,14 +741,23 @@ def c02_reference_caller(ck, quick, rng):
         schedules = [("request, then each line in its own write", [(pq + upq, l0), (lines_[0], l0 + r1), (lines_[1], l0 + r1 + 14 + len(lines_[1])), (lines_[2], len(want_up))]),
                      ("first line in the same write as the upgrade request", [(pq + upq + lines_[0], l0 + r1), (lines_[1] + lines_[2], len(want_up))]),
                      ("two lines in the same write as the upgrade request", [(pq + upq + lines_[0] + lines_[1], l0 + r1 + 14 + len(lines_[1])), (lines_[2], len(want_up))])]
+        # ... and the session goes on after the handler has returned once (ping's returns after "End"): what the client sends
+        # then reaches the handler's next round
+        more_ = b"again\n" + b"End\n"
+        want2 = want_up + b"server reply: again\nserver reply: End\n"
+        schedules.append(("a second round after the handler returned", [(pq + upq, l0), (b"".join(lines_), len(want_up)), (b"", len(want_up)), (more_, len(want2))]))
         for name, steps in schedules:
             got = run_up(steps)
+            if name.startswith("a second round"):
+                want_here = want2
+            else:
+                want_here = want_up
             ck.case("pingmux-upgrade|" + name)
             ck.count("reference_caller_ping_multiplex_upgraded")
-            if got != want_up:
+            if got != want_here:
                 ck.failures.append({"what": "examples/ping in multiplex mode: the bytes of an upgraded session did not reach the upgraded handler in order "
                                             "(the echo depends on how the client's stream was segmented)", "schedule": name,
-                                    "got": got.decode("utf-8", "replace")[:300], "expected": want_up.decode()[:300]})
+                                    "got": got.decode("utf-8", "replace")[:300], "expected": want_here.decode()[:300]})
     finally:
         srv.kill()
         srv.wait()
